@@ -1,5 +1,6 @@
 import XmppVerif.Drv.Core
 import XmppVerif.Drv.C06
+import XmppVerif.Drv.C10
 import XmppVerif.Drv.C15
 import XmppVerif.Drv.C17
 import XmppVerif.Drv.C19
@@ -12,6 +13,7 @@ open XmppVerif.Drv
 
 def handlers : List (String × Handler) := [
   ("C06", XmppVerif.Drv.C06.handler),
+  ("C10", XmppVerif.Drv.C10.handler),
   ("C15", XmppVerif.Drv.C15.handler),
   ("C17", XmppVerif.Drv.C17.handler),
   ("C19", XmppVerif.Drv.C19.handler),
